@@ -23,7 +23,7 @@ import (
 // the last step's output; results are surfaced in order, none dropped.
 //
 //gosym:harness
-//gosym:cover extra-found extra-missing multi-round results-surfaced selected-by-label several-matched
+//gosym:cover extra-found extra-missing multi-round results-surfaced selected-by-label several-matched kind-ending-in-list
 func HarnessC04Steps() {
 	n := zz.Bound(2, 2)
 	nSteps := zz.Bound(2, 3)
@@ -37,13 +37,20 @@ func HarnessC04Steps() {
 	// label variant keeps the other step behaviours fixed: the dimensions are
 	// independent and their product is large)
 	byLabel := zz.Bool("step0.selectsByLabel")
+	// the kind of the extra resources: any kind name is possible, also one
+	// that ends in "List" (AccessList, AllowList ...)
+	zzExtraKind = "Extra"
+	if byLabel && zz.Bool("extra.kindEndsInList") {
+		zz.Cover("kind-ending-in-list")
+		zzExtraKind = "AccessList"
+	}
 
 	// cluster content the selectors may match: "extra-a" exists or not
 	extraAExists := zz.Bool("cluster.extra-a")
 	if extraAExists {
 		e := &kunstructured.Unstructured{}
 		e.SetAPIVersion("example.org/v1")
-		e.SetKind("Extra")
+		e.SetKind(zzExtraKind)
 		e.SetName("extra-a")
 		e.SetLabels(map[string]string{"round": "extra-a"})
 		s.Put(e)
@@ -54,7 +61,7 @@ func HarnessC04Steps() {
 	if extraCExists {
 		e := &kunstructured.Unstructured{}
 		e.SetAPIVersion("example.org/v1")
-		e.SetKind("Extra")
+		e.SetKind(zzExtraKind)
 		e.SetName("extra-c")
 		e.SetLabels(map[string]string{"round": "extra-a"})
 		s.Put(e)
@@ -65,7 +72,7 @@ func HarnessC04Steps() {
 	zz.Assume(extraBName != "extra-c")
 	eb := &kunstructured.Unstructured{}
 	eb.SetAPIVersion("example.org/v1")
-	eb.SetKind("Extra")
+	eb.SetKind(zzExtraKind)
 	eb.SetName(extraBName)
 	eb.SetLabels(map[string]string{"round": extraBName})
 	s.Put(eb)
